@@ -856,3 +856,40 @@ func hReportClasses(c *fw.Ctx, f *hFailures, render func([]int) string) {
 		}
 	}
 }
+
+// hReadLooseCommit reads tree and parents of a commit stored as a loose object
+// (ok=false when it is not loose, e.g. packed).
+func hReadLooseCommit(gitdir, id string) (tree string, parents []string, ok bool) {
+	if len(id) < 40 {
+		return "", nil, false
+	}
+	f, err := os.Open(filepath.Join(gitdir, "objects", id[:2], id[2:]))
+	if err != nil {
+		return "", nil, false
+	}
+	defer f.Close()
+	zr, err := zlib.NewReader(f)
+	if err != nil {
+		return "", nil, false
+	}
+	var b bytes.Buffer
+	if _, err := b.ReadFrom(zr); err != nil {
+		return "", nil, false
+	}
+	data := b.Bytes()
+	i := bytes.IndexByte(data, 0)
+	if i < 0 || !bytes.HasPrefix(data, []byte("commit ")) {
+		return "", nil, false
+	}
+	for _, l := range strings.Split(string(data[i+1:]), "\n") {
+		switch {
+		case strings.HasPrefix(l, "tree "):
+			tree = strings.TrimPrefix(l, "tree ")
+		case strings.HasPrefix(l, "parent "):
+			parents = append(parents, strings.TrimPrefix(l, "parent "))
+		case l == "":
+			return tree, parents, tree != ""
+		}
+	}
+	return tree, parents, tree != ""
+}
